@@ -49,7 +49,7 @@ def one(ctx, binary, name, cfg, ticks, depth, unit_ns, alpha, simulate=None):
     tla, c = mc(cfg, ticks, depth, alpha)
     d = vlib.stage_specs(ctx, "br_%s_%s_%s" % (name, alpha, "sim" if simulate else "ex"), tla, c)
     hcfg = dict(cfg, unit_ns=unit_ns)
-    kw = dict(timeout=1500, workers=4)
+    kw = dict(timeout=3000, workers=4)
     if simulate:
         kw.update(simulate=simulate, depth=depth + 1, workers=1)
     res, recs, summ = pipeline.tlc_to_harness(ctx, d, binary, "breaker_replay", dict(cfg=json.dumps(hcfg)), kw)
@@ -79,7 +79,8 @@ def run(ctx):
         timed = cfg["period"] != 0
         depth = 4 if quick else (6 if timed else 7)
         for alpha in ("api", "exec"):
-            jobs.append((name, cfg, ticks, depth, units[(i + ctx.seed) % len(units)], alpha, None))
+            # (the execution alphabet has more letters - outcome x delay-function value: one level less in the thorough tier)
+            jobs.append((name, cfg, ticks, depth if quick or alpha == "api" else depth - 1, units[(i + ctx.seed) % len(units)], alpha, None))
             n, dp = (150, 30) if quick else (2000, 50)
             jobs.append((name, cfg, ticks, dp, units[(i + 1 + ctx.seed) % len(units)], alpha, "num=%d" % n))
     from concurrent.futures import ThreadPoolExecutor
